@@ -190,7 +190,31 @@ def run(ctx):
                     okz = okb = True
         ctx.ob('C18.3', '%s zeroed over its whole length before accumulating' % name, okz and okb,
                'every counter of the summary starts at 0', loc=(z[0].loc if z else a.loc))
-    ctx.floor('C18.3', 16)
+    # the leaf initialiser clears the same counters over their whole length (nodes are recycled)
+    ei = ctx.need_fn(m, 'dr_end_interval_')
+    dn = ei.params[0]['id']
+    for name in ('logical_node_counts', 'logical_edge_counts'):
+        alen = (m.struct_field('dr_dag_node_info', name) or {}).get('nelem')
+        z = [st for st in ei.stores_to(INFO + name) if same_value(ei, ei.ap(st.ops[1]).root, dn) and const_int(st.ops[0]) == 0]
+        okb = False
+        for st in z:
+            lpz = lib.loop_containing(ei, st)
+            ix = [x for x in ei.ap(st.ops[1]).steps if x[0] == 'i']
+            if lpz is None or not ix or not isinstance(ix[-1][1], str):
+                continue
+            for ic in ei.order:
+                if ic.op == 'icmp' and ic.pred in ('slt', 'ult') and ic.block.id == lpz['header'] and const_int(ic.ops[1]) == alen and \
+                        lib.same_expr(ei, ic.ops[0], ix[-1][1]):
+                    ph = ei.get(ei.strip(ic.ops[0]))
+                    if ph is not None and ph.op == 'phi' and any(const_int(v_) == 0 for v_, b_ in ph.d['incoming']):
+                        okb = True
+        for mc in ei.calls():
+            if (mc.callee or '').startswith('llvm.memset') and ei.ap(mc.args[0]).fields[-1:] == [INFO + name] and \
+                    same_value(ei, ei.ap(mc.args[0]).root, dn) and const_int(mc.args[1]) == 0 and alen and const_int(mc.args[2]) == 8 * alen:
+                okb = True
+        ctx.ob('C18.3', 'leaf initialiser clears %s over its whole length (%s entries)' % (name, alen), okb,
+               'a recycled node that keeps one stale counter carries it into every total it is later summed into', loc=ei.loc)
+    ctx.floor('C18.3', 18)
     rule4_edges(ctx, m, a, s)
 
 
@@ -668,6 +692,8 @@ MUTANTS = [
      'edits': [(INL, "        dr_start_task__(wss->parent, file, line, worker);\n        wss->parent = 0;\n        return 1;", "        dr_start_task__(wss->parent, file, line, worker);\n        return 1;")]},
     {'name': 'interval after an other-interval has no start stamp (sweep M0124)', 'expect': 'C18.5',
      'edits': [(INL, "      /* record an interval just started */\n      dr_set_start_info(&t->info.start, wss->worker, file, line);\n    }\n  }\n\n  /* \n     called when a program ends a task", "    }\n  }\n\n  /* \n     called when a program ends a task")]},
+    {'name': 'leaf initialiser clears the edge counts with the node-count bound (seed3 C18/m1)', 'expect': 'C18.3',
+     'edits': [(INL, "    for (ek = 0; ek < dr_dag_edge_kind_max; ek++) {\n      dn->info.logical_edge_counts[ek] = 0;", "    for (ek = 0; ek < dr_dag_node_kind_section; ek++) {\n      dn->info.logical_edge_counts[ek] = 0;")]},
     {'name': 'edge counts of created tasks dropped', 'expect': 'C18.3',
      'edits': [(INL, "            for (k = 0; k < dr_dag_edge_kind_max; k++) {\n              s->info.logical_edge_counts[k] += c->info.logical_edge_counts[k];\n            }\n", "")]},
 ]
